@@ -205,8 +205,14 @@ func (x *Exec) compsWritten(fn *ssa.Function, blocks map[*ssa.BasicBlock]bool, s
 		for _, ins := range b.Instrs {
 			switch i := ins.(type) {
 			case *ssa.Store:
+				if isLocalAllocBase(i.Addr) {
+					continue
+				}
 				x.compsOfPtr(i.Addr, out)
 			case *ssa.Alloc, *ssa.MakeSlice, *ssa.MakeMap, *ssa.MakeClosure:
+				if a, ok := i.(*ssa.Alloc); ok && isLocalAllocBase(a) {
+					continue // non-escaping local: its own state component, not heap
+				}
 				out["alloc"] = true
 				if a, ok := i.(*ssa.Alloc); ok {
 					x.compsOfAllocType(a.Type().(*types.Pointer).Elem(), out)
@@ -316,12 +322,19 @@ func (x *Exec) compsOfFn(callee *ssa.Function, seen map[*ssa.Function]bool, out 
 	key := fnKey(callee)
 	if con := x.E.Contracts[key]; con != nil && con.HasBody && !con.Inline {
 		for _, m := range con.Modifies {
+			if m.Comp == "fresh" {
+				if callee.Blocks != nil {
+					x.compsWritten(callee, nil, seen, out)
+				}
+				continue
+			}
 			x.expandModComp(m.Comp, out)
 		}
 		out["alloc"] = true
 		return
 	}
-	if callee.Blocks == nil {
+	if callee.Blocks == nil || (callee.Pkg != nil && callee.Pkg != x.E.Pkg) {
+		// library function: its effect on package state is its assumed contract (ext.go)
 		x.extWrites(callee, out)
 		return
 	}
@@ -581,6 +594,12 @@ func (fr *Frame) loopVars(li *loopInfo, st State, phiVal func(*ssa.Phi) Value) m
 				pick = c
 			}
 		}
+		if ambiguous && pick != nil {
+			// branch-local definitions are fine when a later merge (phi) dominating the loop was picked
+			if phi, ok := pick.(*ssa.Phi); ok && phi.Block().Dominates(li.header) {
+				ambiguous = false
+			}
+		}
 		if n != 1 || ambiguous {
 			continue
 		}
@@ -601,9 +620,8 @@ func (fr *Frame) loopVars(li *loopInfo, st State, phiVal func(*ssa.Phi) Value) m
 			val = v
 		}
 		if sv, ok := x.specVarOf(val, "inv"); ok {
-			if _, isParam := vars[name]; !isParam {
-				vars[name] = sv
-			}
+			// a reassigned parameter is shadowed by its latest dominating definition
+			vars[name] = sv
 		}
 	}
 	// header phis by comment name (takes precedence)
@@ -646,6 +664,14 @@ func (x *Exec) cutLoop(fr *Frame, li *loopInfo, bc Term, st State) State {
 	// 2. havoc
 	written := map[string]bool{}
 	x.compsWritten(fr.fn, li.blocks, map[*ssa.Function]bool{}, written)
+	if written["*map"] {
+		delete(written, "*map")
+		for _, name := range x.E.compNames() {
+			if strings.HasPrefix(name, "Map_") {
+				written[name] = true
+			}
+		}
+	}
 	nst := st.clone()
 	for _, c := range sortedKeys(written) {
 		if c == "*map" {
@@ -668,6 +694,10 @@ func (x *Exec) cutLoop(fr *Frame, li *loopInfo, bc Term, st State) State {
 			continue
 		}
 		nst[c] = x.C.Fresh(c+"_lp", sort)
+		if c == "G_calls_len" {
+			// the call counter only grows
+			x.C.Assume(BoolLit(true), T(SBool, app(">=", nst[c].S, x.comp(st, c).S)))
+		}
 	}
 	// locals of this frame that the loop may write (any non-load use of their address inside the loop)
 	{
@@ -706,14 +736,29 @@ func (x *Exec) cutLoop(fr *Frame, li *loopInfo, bc Term, st State) State {
 		}
 	}
 	li.auto = nil
-	if len(invs) == 0 {
+	invText := ""
+	for _, cl := range invs {
+		invText += " " + cl.Expr
+	}
+	{
 		a0 := x.comp(fr.entrySt, "alloc")
 		for _, c := range sortedKeys(written) {
 			sort, ok := x.E.CompSorts[c]
 			if !ok || c == "alloc" {
 				continue
 			}
-			if _, isArr := elemOfArr(sort); !isArr || strings.HasPrefix(c, "G_") || strings.HasPrefix(c, "Map_") {
+			if len(invs) > 0 && (strings.Contains(invText, c) || c == "Cell_stack" && strings.Contains(invText, "hdr(") || c == "Mem_Val" && (strings.Contains(invText, "slot(") || strings.Contains(invText, "cell("))) {
+				continue // the user invariants speak about this component
+			}
+			if c == "G_held" {
+				name := fmt.Sprintf("auto:%s:loop%d:G_held:same", fnName, li.ordinal)
+				if !x.autoExcl[name] && !strings.Contains(invText, "G_held") {
+					li.auto = append(li.auto, autoCand{name: name, comp: c, pre: x.comp(st, c), op: "same"})
+					x.C.Assume(bc, Eq(nst[c], x.comp(st, c)))
+				}
+				continue
+			}
+			if _, isArr := elemOfArr(sort); !isArr || strings.HasPrefix(c, "G_") {
 				continue
 			}
 			// two candidates: unchanged below the allocation mark at loop entry (stronger), or at function entry
@@ -809,6 +854,13 @@ func (x *Exec) checkBackEdge(fr *Frame, from *ssa.BasicBlock, li *loopInfo, ec T
 			continue
 		}
 		cur := x.comp(st, ac.comp)
+		if ac.op == "same" {
+			g := &Goal{Name: ac.name, Func: fnKey(fr.fn), Kind: "auto-inv", Text: "generated loop candidate: the set of held locks is the same at every iteration"}
+			if body := Eq(cur, ac.pre); Implies(ec, body).S != "true" {
+				x.C.AddGoal(g, ec, body)
+			}
+			continue
+		}
 		body := T(SBool, fmt.Sprintf("(forall ((q Int)) (=> (and (<= 0 q) (< q %s)) (= (select %s q) (select %s q))))", ac.a0.S, cur.S, ac.pre.S))
 		g := &Goal{Name: ac.name, Func: fnKey(fr.fn), Kind: "auto-inv", Text: "generated loop frame candidate: " + ac.comp + " unchanged below the entry allocation mark"}
 		if Implies(ec, body).S != "true" {
@@ -947,4 +999,22 @@ func (x *Exec) constValue(c *ssa.Const) Value {
 		return VT(x.C.Fresh("fconst", SInt), t)
 	}
 	return poison("constant of unsupported type "+t.String(), t)
+}
+
+// isLocalAllocBase: the pointer is (a field of) a non-escaping, non-array local variable.
+func isLocalAllocBase(p ssa.Value) bool {
+	for {
+		switch a := p.(type) {
+		case *ssa.Alloc:
+			if a.Heap {
+				return false
+			}
+			_, isArr := a.Type().(*types.Pointer).Elem().Underlying().(*types.Array)
+			return !isArr
+		case *ssa.FieldAddr:
+			p = a.X
+		default:
+			return false
+		}
+	}
 }
